@@ -590,6 +590,8 @@ fn analog_menu() -> Vec<f64> {
         2147483647.0, 2147483648.0, 2147483647.5, -2147483648.0, -2147483649.0, 1e10, -1e10, 16777217.0,
         f32max, -f32max, f32max * 2.0, -f32max * 2.0, 3.4028235677973366e38, 1e300, -1e300, f64::MAX, f64::MIN,
         5e-324, 1e-46, f64::INFINITY, f64::NEG_INFINITY, f64::NAN,
+        // just beyond the f32 range, where narrowing rounds back to f32::MAX instead of to infinity
+        f64::from_bits(f32max.to_bits() + 1), -f64::from_bits(f32max.to_bits() + 1), 3.4028235e38, -3.4028235e38,
     ]
 }
 
@@ -993,6 +995,9 @@ pub fn replay(name: &str, path: &[usize]) -> Option<RunResult> {
     if IndexSets.name() == name {
         return Some(IndexSets.run(path[0], true));
     }
+    if (super::c03x::EventVariations { id: "C10" }).name() == name {
+        return Some(super::c03x::EventVariations { id: "C10" }.run(path[0], true));
+    }
     if (Cto { id: "C10" }).name() == name {
         return Some((Cto { id: "C10" }).run(path[0], true));
     }
@@ -1005,9 +1010,10 @@ pub fn check(tier: &str) -> i32 {
     c.cases(&IndexSets);
     c.cases(&Racing);
     c.cases(&Cto { id: "C10" });
+    c.cases(&super::c03x::EventVariations { id: "C10" });
     c.finish(
         "exploration",
-        "finite product: 8 point types x every configured static variation and every event variation x boundary values (36 analog values incl. i16/i32/f32 limits +-1, halves, infinities, NaN, subnormals; 7 counter values incl. 0xFFFF/0x10000/u32::MAX; all binary / double-bit states) x flag octets (11 quick, all 256 thorough) x 7 timestamps (none, 0, 1, 2^48-1, synchronized and unsynchronized) x index {0, 65535}; index sets (single, dense, sparse incl. 65535, around 255/256); all orders of 3 events under a common-time-of-occurrence header with time differences {0, 1, 65535, 65536, -1, -70000} and mixed synchronisation. Each case: real Database::update -> real response writers (through the real OutstationTask) -> bytes -> engine decoder and the library's extract_measurements into a recording handler, both compared with what the variation can carry; non-trivial = the point was reported; distinct = distinct case",
+        "finite product: 8 point types x every configured static variation and every event variation x boundary values (40 analog values incl. i16/i32/f32 limits +-1, halves, infinities, NaN, subnormals; 7 counter values incl. 0xFFFF/0x10000/u32::MAX; all binary / double-bit states) x flag octets (11 quick, all 256 thorough) x 7 timestamps (none, 0, 1, 2^48-1, synchronized and unsynchronized) x index {0, 65535}; index sets (single, dense, sparse incl. 65535, around 255/256); all orders of 3 events under a common-time-of-occurrence header with time differences {0, 1, 65535, 65536, -1, -70000} and mixed synchronisation; every configurable event variation offered by a class poll as recorded, directly and after an unconfirmed READ naming another variation (the product C03 also runs). Each case: real Database::update -> real response writers (through the real OutstationTask) -> bytes -> engine decoder and the library's extract_measurements into a recording handler, both compared with what the variation can carry; non-trivial = the point was reported; distinct = distinct case",
         &[
             "2^48 timestamps and the f64 domain are covered by boundary menus, not enumerated",
             "an infinite analog value through an f32 variation may arrive as infinity or saturated with OVER_RANGE",
